@@ -1,9 +1,134 @@
-"""C14 -- decided with spec/Session.tla; see harness/session_props.py for the plan and DESIGN.md section 5."""
-from harness import session_check, session_props
+"""
+C14 -- decided with spec/Session.tla (rows, rejections, checks, line ends; see harness/session_props.py for the plan and
+DESIGN.md section 5) and, for what a single value looks like once it is written, with spec/Fields.tla: the writer pads a
+fixed-width value, so it has to judge a value the way a reader judges the padded cell (Fields.tla, Pad).
+"""
+import io
+
+from harness import c03, core, session_check, session_props
+
+WRITER_TYPES = ("Text", "Integer")
+
+
+def _writer_job(job):
+    """One field, one cell: what the writer says, what it writes, and what reading that back gives."""
+    vec, predicted = job
+    import cutplace
+    from cutplace import errors, validio
+    problems = []
+    fld = vec["fld"]
+    for type_name in WRITER_TYPES:
+        for good_char in c03.TYPES[type_name][1]:
+            text = c03.spell(vec["cell"], good_char, fld["restricted"])
+            padded = c03.spell(vec["padded"], good_char, fld["restricted"])
+            rows = [["D", "Format", fld["fmt"]]]
+            if fld["restricted"] != "none":
+                rows.append(["D", "Allowed characters", c03.ALLOWED[fld["restricted"]]])
+            rows.append(["F", "f", "", "X" if fld["emptyAllowed"] else "", c03.length_text(fld["length"]), type_name, ""])
+            cid = cutplace.Cid()
+            try:
+                cid.read("cid", rows)
+            except errors.InterfaceError:
+                continue
+            field = cid.field_formats[0]
+            stripped = padded.strip(" ") if fld["fmt"] == "fixed" else padded
+            if stripped:
+                try:
+                    field.validated_value(stripped)
+                    hook = True
+                except errors.FieldValueError:
+                    hook = False
+                except Exception:  # noqa -- C02 / C10 business
+                    continue
+            else:
+                hook = True
+            expected = predicted.get(hook)
+            if expected is None:
+                continue  # (the padded cell is a case the property text does not decide)
+            what = "%s field (format %s, empty allowed %s, length %r, allowed characters %s): value %r" % (
+                type_name, fld["fmt"], fld["emptyAllowed"], c03.length_text(fld["length"]), c03.ALLOWED.get(fld["restricted"], "any"), text)
+            target = io.StringIO()
+            writer = validio.Writer(cid, target)
+            try:
+                writer.write_row([text])
+                said = "accept"
+            except errors.DataError:
+                said = "reject"
+            except Exception as error:  # noqa
+                problems.append("%s: the writer fails with %s: %s" % (what, type(error).__name__, error))
+                continue
+            try:
+                writer.close()
+            except errors.DataError:
+                pass
+            output = target.getvalue()
+            if said != expected[0]:
+                problems.append("%s: the writer %ss it, a reader %ss the cell %r it is written as" % (what, said, expected[0], padded))
+            if said == "reject":
+                if output != "":
+                    problems.append("%s: refused, but %r was written" % (what, output))
+                continue
+            if fld["fmt"] == "fixed" and output.rstrip("\r\n") != padded:
+                problems.append("%s: written as %r but must be written as %r" % (what, output, padded))
+            if fld["fmt"] == "delimited" and text == "" :
+                continue  # (a line without content is no row: Session.tla, row class "empty")
+            try:
+                back = list(cutplace.rows(cid, io.StringIO(output, newline="")))
+                if back != [[padded]]:
+                    problems.append("%s: written as %r, which reads back as %r" % (what, output, back))
+            except errors.DataError as error:
+                problems.append("%s: written as %r, which a reader under the same CID refuses: %s" % (what, output, error))
+    return problems
+
+
+def written_values(report, tier):
+    """Fields.tla: every (field, cell) of the writer formats -- the writer's verdict is the reader's verdict on the padded cell."""
+    result = core.tlc("MCFields", "Fields_writer.cfg", timeout=3000)
+    core.require_coverage(result, ["GuardChars", "Strip", "GuardEmpty", "GuardLength", "Value"], "Fields/writer")
+    report.add_tlc("Fields (writer's view): delimited and fixed x empty flag x length declarations x allowed characters x cells <= 4", result)
+    vectors = result.by_tag("VEC")
+    verdicts = {}
+    for vec in vectors:
+        key = core.json.dumps([vec["fld"], vec["cell"]], sort_keys=True)
+        verdicts.setdefault(key, {})[vec["hook"]] = None if vec["undecided"] else vec["outcome"]
+    jobs = []
+    padded_short = 0
+    for vec in vectors:
+        if not vec["hook"]:
+            continue  # one job per (field, cell); the hook verdict is measured
+        if vec["fld"]["fmt"] == "fixed" and len(vec["cell"]) > vec["fld"]["length"][0][0][0]:
+            continue  # longer than the field: refused, nothing is padded (Session.tla, cell class "grd")
+        predicted = verdicts.get(core.json.dumps([vec["fld"], vec["padded"]], sort_keys=True))
+        if predicted is None:
+            continue  # the padded cell is longer than the cells explored
+        padded_short += vec["padded"] != vec["cell"]
+        jobs.append((vec, predicted))
+    if not padded_short:
+        raise core.MachineryError("no value shorter than its fixed-width field among the writer's cases")
+    outcomes = core.parallel_map(_writer_job, jobs, chunk=200)
+    seen = {}
+    for (vec, _), problems in zip(jobs, outcomes):
+        report.replayed += 1
+        for problem in problems:
+            shape = (vec["fld"]["fmt"], vec["fld"]["restricted"], problem.split(": ", 2)[-1][:30])
+            seen[shape] = seen.get(shape, 0) + 1
+            if seen[shape] <= 1:
+                report.violation("c14", {"field": vec["fld"], "cell": vec["cell"], "via": "written value"}, None, None, problem)
+            else:
+                report.violations.append({"what": problem})
+    report.notes["written_values"] = "%d (field, value) cases written and read back, %d of them padded" % (len(jobs), padded_short)
+    # self-test: a prediction turned around is noticed
+    for vec, predicted in jobs:
+        if predicted.get(True) and predicted[True][0] == "accept" and vec["padded"] != vec["cell"]:
+            if not _writer_job((vec, {True: ["reject", "character"], False: ["reject", "character"]})):
+                core.selftest_failed("C14: a corrupted prediction for a written value was not noticed")
+            break
+    else:
+        core.selftest_failed("C14: no accepted padded value to corrupt")
 
 
 def run(tier, report):
-    return session_props.run_plan("C14", tier, report)
+    return session_props.run_plan("C14", tier, report, extra=written_values)
 
 
 replay = session_check.replay
